@@ -306,7 +306,7 @@ class DataPacketReceiver(Elaboratable):
                     m.d.comb += self.packet_bad.eq(1)
 
                 # Finally, wait for our next packet.
-                    m.next = "WAIT_FOR_HPSTART"
+                m.next = "WAIT_FOR_HPSTART"
 
 
         return m
